@@ -144,7 +144,7 @@ func Main(prop, tier string, only int) int {
 		}
 	case "C15":
 		for _, sc := range c15Scenarios(tier) {
-			jobs = append(jobs, job{"C15(" + sc.P.String() + ")", vsched.Config{Bound: sc.Bound, TickBudget: sc.P.Ticks, Deadline: dl, StateKeys: true,
+			jobs = append(jobs, job{"C15(" + sc.P.String() + ")", vsched.Config{Bound: sc.Bound, TickBudget: sc.P.Ticks, Deadline: dl, StateKeys: true, MapOrders: sc.P.Orders,
 				Body: c15Body(sc.P), Check: c15Check}})
 		}
 	default:
